@@ -759,11 +759,7 @@ func replayObligation(eng *Engine, o *Obligation, ct *Contract, modelTxt string,
 	// which ensures clause failed?
 	var ens *Clause
 	if o.Kind == "ensures" {
-		for _, c := range ct.Ensures {
-			if strings.Contains(o.Name, fmt.Sprintf("/ensures#%d", c.Ord)) && (strings.HasSuffix(o.Name, fmt.Sprintf("#%d", c.Ord)) || strings.Contains(o.Name, fmt.Sprintf("#%d.ret", c.Ord))) {
-				ens = c
-			}
-		}
+		ens = o.Clause
 	}
 	// old() snapshots
 	ensSrc := ""
